@@ -38,11 +38,18 @@ def digest(x):
 
 def shape_of(x):
     if isinstance(x, dict):
-        return ["d", len(x)]
+        return ["d"]
     if isinstance(x, (tuple, list)):
         return ["t", [shape_of(v) for v in x]]
     a = np.asarray(x)
     return [a.dtype.kind, list(a.shape)]
+
+
+def tape_key(t):
+    """Process-independent identity of a circuit (tape.hash depends on the interpreter's string-hash seed)."""
+    ops = [f"{op.name}{list(op.wires)}{[round(float(p), 9) for p in op.data]}" for op in t.operations]
+    ms = [repr(m) for m in t.measurements]
+    return hashlib.sha256("|".join(ops + ms + [str(t.shots.shot_vector)]).encode()).hexdigest()[:16]
 
 
 def _current():
@@ -56,7 +63,7 @@ if LOGDIR and not getattr(_dq, "_verif_hooked", False):
     def _simulate_wrapper(circuit, kwargs):
         try:
             cur = _current()
-            i, pred = cur["tasks"][str(circuit.hash)]
+            i, pred = cur["tasks"][tape_key(circuit)]
         except Exception:  # noqa: BLE001 - not one of ours: behave exactly like the original
             return _orig(circuit, kwargs)
         run = cur["run"]
@@ -108,11 +115,11 @@ def session(s, out):
             cfg = dev.setup_execution_config(cfg)
             prog = dev.preprocess_transforms(cfg)
             tapes2, post = prog(tapes)
-            if len(tapes2) != n:
-                raise RuntimeError("preprocessing changed the batch size")
+            if len(tapes2) != n or len({tape_key(t) for t in tapes2}) != n:
+                raise RuntimeError("preprocessing changed the batch size / circuits not distinguishable")
             tmp = os.path.join(LOGDIR, "current.tmp")
             with open(tmp, "w") as f:
-                json.dump({"run": run, "tasks": {str(t.hash): [i, pred[i]] for i, t in enumerate(tapes2, start=1)}}, f)
+                json.dump({"run": run, "tasks": {tape_key(t): [i, pred[i]] for i, t in enumerate(tapes2, start=1)}}, f)
             os.replace(tmp, os.path.join(LOGDIR, "current.json"))
             t0 = time.time()
             res = post(dev.execute(tapes2, cfg))
@@ -124,7 +131,7 @@ def session(s, out):
             else:
                 rec["digests"] = [digest(x) for x in res]
                 for i, t in enumerate(tapes2):
-                    if shape_of(res[i]) != shape_of(ref[i]) and not isinstance(ref[i], dict):
+                    if shape_of(res[i]) != shape_of(ref[i]):
                         rec["shapes_ok"] = False
                     if t.shots.total_shots is None:
                         for a, b in zip(res[i] if isinstance(res[i], tuple) else (res[i],), ref[i] if isinstance(ref[i], tuple) else (ref[i],)):
